@@ -338,7 +338,7 @@ Proof. unfold mem. rewrite existsb_app. cbn [existsb]. rewrite str_eqb_refl, orb
 Lemma assign_by_value o r jt b l :
   o_jtags o = Some jt -> jt <> [] -> o_split o = false -> o_byvalue o = Some b -> assign o None r = Ok l ->
   passes o r ->
-  l = [((map (meta r) (o_stags o), map KS (joined_feature o (snd (prep o)) r)), py_float_or_0 (feat r b))].
+  l = [((map (meta r) (o_stags o), map KS (joined_feature o (snd (prep o)) r)), num_of (meta r b))].
 Proof.
   intros Hj Hne Hs Hb. unfold assign. destruct (should_count o r) as [v|e] eqn:Hc; [|discriminate].
   apply should_count_iff in Hc. intros H Hp. apply Hc in Hp. subst v.
